@@ -12,6 +12,7 @@ from hypergraph.runners._shared.helpers import (
     _UNSET_SELECT,
     _materialize_select,
     _validate_error_handling,
+    _validate_max_concurrency,
     _validate_on_missing,
     filter_outputs,
     generate_map_inputs,
@@ -30,6 +31,7 @@ from hypergraph.runners._shared.types import (
     _generate_run_id,
 )
 from hypergraph.runners._shared.validation import (
+    _validate_on_internal_override,
     resolve_runtime_selected,
     validate_inputs,
     validate_map_compatible,
@@ -174,6 +176,7 @@ class AsyncRunnerTemplate(BaseRunner, ABC):
         )
         _validate_on_missing(on_missing)
         _validate_error_handling(error_handling)
+        _validate_max_concurrency(max_concurrency)
 
         max_iter = max_iterations if max_iterations is not None else self.default_max_iterations
         dispatcher = self._create_dispatcher(event_processors)
@@ -279,6 +282,8 @@ class AsyncRunnerTemplate(BaseRunner, ABC):
         validate_node_types(graph, self.supported_node_types)
         validate_map_compatible(graph)
         _validate_error_handling(error_handling)
+        _validate_max_concurrency(max_concurrency)
+        _validate_on_internal_override(on_internal_override)
         select = _materialize_select(select)
 
         map_over_list = [map_over] if isinstance(map_over, str) else list(map_over)
